@@ -177,8 +177,9 @@ Ltac inv_b :=
   | H : need _ = Ok _ |- _ => apply need_ok in H
   | H : berr = Ok _ |- _ => discriminate H
   | H : @Err _ _ = Ok _ |- _ => discriminate H
-  | H : Ok _ = Ok _ |- _ => inversion H; subst; clear H
-  | H : (let '(_, _) := ?x in _) = Ok _ |- _ => destruct x
+  | H : Ok _ = Ok (?x, ?y) |- _ => is_var x; is_var y; injection H as ? ?; subst x y
+  | H : Ok _ = Ok ?x |- _ => is_var x; injection H as ?; subst x
+  | H : (let '(_, _) := ?x in _) = Ok _ |- _ => is_var x; destruct x
   | H : context [if ?b then _ else _] |- _ =>
     match type of H with _ = Ok _ => destruct b eqn:? end
   | H : context [match ?o with _ => _ end] |- _ =>
